@@ -13,4 +13,5 @@ INVARIANT SemConsistent
 INVARIANT NoOrphan
 PROPERTY NoWriteAfterFault
 PROPERTY NoStaleCompletion
+PROPERTY StaleLossHarmless
 CHECK_DEADLOCK FALSE
